@@ -9,6 +9,8 @@ THEOREMS = [("FlatModel.Props.C14", t) for t in (
     "FC.C14.cloneOnto_eq", "FC.C14.cloneOnto_eq_intoOwned", "FC.C14.reborrow_id", "FC.C14.copy_between_regions",
     "FC.C14.columns_intoOwned_eq_index", "FC.C14.columns_cloneOnto_eq", "FC.C14.columns_borrowAs_roundtrip",
     "FC.C14.columns_copy_between_regions", "FC.cloneOnto_list")]
+THEOREMS += [("FlatModel.Props.C14b", t) for t in (
+    "FC.C14.option_cloneOnto_eq", "FC.C14.option_cloneOnto_arms", "FC.C14.option_borrow_roundtrip", "FC.C14.option_reborrow_id", "FC.C14.result_cloneOnto_eq", "FC.C14.result_cloneOnto_arms", "FC.C14.result_borrow_roundtrip", "FC.C14.result_reborrow_id", "FC.C14.tuple_cloneOnto_eq", "FC.C14.tuple_borrow_roundtrip", "FC.C14.tuple_reborrow_id", "FC.C14.slice_cloneOnto_eq", "FC.C14.slice_borrow_roundtrip", "FC.C14.slice_reborrow_id", "FC.C14.readSlice_cloneOnto_is_slice", "FC.C14.readColumns_cloneOnto_is_slice", "FC.C14.cloneOnto_nested", "FC.C14.borrowAs_nested", "FC.C14.roundtrip_nested", "FC.C14.cloneOnto_overwrites", "FC.C14.wrapped_cloneOnto_eq", "FC.C14.wrapped_cloneOnto_eq_intoOwned", "FC.C14.wrapped_intoOwned_eq", "FC.C14.wrapped_borrow_roundtrip", "FC.C14.wrapped_reborrow_id", "FC.C14.item_bind_decode_eq_index", "FC.C14.item_decode_eq_index", "FC.C14.item_decodes", "FC.C14.huffman_push_intoOwned", "FC.C14.huffman_copy_between", "FC.C14.huffman_item_ok", "FC.C14.wrappedOK_ops", "FC.C14.readSliceOK_ops", "FC.SliceItem.cloneOnto_eq")]
 PROFILES = {"quick": ["checked"], "thorough": ["checked", "wrapping"], "search": ["checked"]}
 RULE = ("every read item of every catalogue entry: into_owned == pushed value; borrow_as(&into_owned(x)) renders / iterates equal "
         "to x; clone_onto(x, t) for prior targets t (empty, shorter, longer, other variant, nested, equal) leaves t == into_owned(x); "
